@@ -1,18 +1,25 @@
 #!/usr/bin/env python3
-"""prints the markdown table of DESIGN.md section 13 from seeded/*/meta.json"""
+"""prints the markdown table of DESIGN.md section 13 from seeded/*/meta.json (checks_run + matrix)"""
 import glob, json, os, re
 V = os.path.dirname(os.path.dirname(os.path.abspath(__file__)))
-print("| change | what it does (needs in order to manifest) | check | caught by predicate | first event |")
-print("|---|---|---|---|---|")
+print("| change | file | what it is | breaks | checks that report it (predicate) | relevant checks that stay quiet |")
+print("|---|---|---|---|---|---|")
 for d in sorted(glob.glob(os.path.join(V, "seeded", "*"))):
     m = json.load(open(os.path.join(d, "meta.json")))
     md = m["needs_to_manifest"]
     files = sorted(set(re.findall(r"^\+\+\+ b/(\S+)", open(os.path.join(d, "patch.diff")).read(), re.M)))
     first = " ".join(md.strip().split())
-    first = re.sub(r"^#+\s*", "", first)[:170]
-    for k, v in sorted(m.get("checks_run", {}).items()):
-        verdict = v.split("(")[0].strip()
-        mm = re.search(r"(\S+) (\w+) at event (\d+)", v)
-        tag = f"`{mm.group(2)}` on {mm.group(1)}" if mm else "-"
-        ev = mm.group(3) if mm else "-"
-        print(f"| {os.path.basename(d)} ({', '.join(f.replace('src/', '') for f in files)}) | {first} | {k} | {verdict}: {tag} | {ev} |")
+    first = re.sub(r"^#+\s*", "", first)
+    first = re.sub(r"^[mr]\d\s*[-—–:(]+\s*", "", first)
+    first = first[:140].rsplit(" ", 1)[0].replace("|", "/")
+    res = dict(m.get("matrix", {}).get("results", {}))
+    for k, v in m.get("checks_run", {}).items():      # target check run directly against /repo
+        p = k.split("/")[0]
+        if p not in res:
+            mm = re.search(r"(\S+) (\w+) at event", v)
+            res[p] = v.split("(")[0].strip().upper().replace("MISSED", "quiet") + (f" {mm.group(2)}@{mm.group(1)}" if mm else "")
+    det = [f"{p} (`{v.split()[1].split('@')[0]}`)" if len(v.split()) > 1 else p for p, v in sorted(res.items()) if v.startswith("DETECTED")]
+    quiet = [p for p, v in sorted(res.items()) if v.startswith("quiet")]
+    err = [p for p, v in sorted(res.items()) if v.startswith("TOOL")]
+    tgt = m.get("breaks_property") or "nothing (refactoring)"
+    print(f"| {os.path.basename(d)} | {', '.join(f.replace('src/', '') for f in files)} | {first} … | {tgt} | {', '.join(det) or '—'}{(' ; tool error: ' + ', '.join(err)) if err else ''} | {', '.join(quiet) or '—'} |")
